@@ -85,7 +85,7 @@ def pan(ctx, prog, cfg):
                           "R = %s is one of the two implemented arms" % rty, cfg)
         ctx.floor("PAN2", "call sites of " + helper, n, 4, cfg)
     entries = [f for f in prog.public_entries() if f.has_mir]
-    ctx.floor("PAN1", "public entries", len(entries), 90, cfg)
+    ctx.floor("PAN1", "public entries", len(entries), 88, cfg)
     total_sites = 0
     for f in sorted(entries, key=lambda x: x.short):
         sites = R.sites(f.short)
